@@ -1,7 +1,9 @@
 #!/bin/bash
-# usage: tools_seedtest.sh <PID> <worktree> <seeddir> [extra check args]
-# applies the seeded patch IN THE WORKTREE, confirms demo (exit 1 with, exit 0 without), runs the check against the worktree
-PID=$1; WT=$2; SD=$3; shift 3
+# usage: tools_seedtest.sh <PID> <worktree> <seeddir> [build]
+# applies the seeded patch IN THE WORKTREE, confirms the demo (exit 1 with, exit 0 without) and the
+# test-suite, runs the check against the worktree (VERIF_REPO); with 'build' the translators and
+# the Coq build also run against the worktree (and are restored for /repo afterwards)
+PID=$1; WT=$2; SD=$3; MODE=${4:-nobuild}
 cd "$WT" || exit 9
 git checkout -q -- pyecore 2>/dev/null
 cp "$SD/demo.py" "$WT/_demo_tmp.py"
@@ -10,7 +12,12 @@ git apply "$SD/patch.diff" || { echo "PATCH DOES NOT APPLY"; exit 8; }
 /venv/bin/python _demo_tmp.py >/dev/null 2>&1; mutated=$?
 tests=$(/venv/bin/python -m pytest -q -p no:cacheprovider -x 2>&1 | tail -1)
 cd /verif
-out=$(VERIF_REPO="$WT" ./check "$PID" --no-build "$@" 2>&1 | tail -3)
+if [ "$MODE" = build ]; then
+  out=$(VERIF_REPO="$WT" ./check "$PID" 2>&1 | tail -3)
+else
+  out=$(VERIF_REPO="$WT" ./check "$PID" --no-build 2>&1 | tail -3)
+fi
 cd "$WT"; git checkout -q -- pyecore; rm -f _demo_tmp.py
+if [ "$MODE" = build ]; then cd /verif && ./setup.sh >/dev/null 2>&1; fi
 echo "demo clean=$clean mutated=$mutated | tests: $tests"
-echo "$out" | cut -c1-220
+echo "$out" | grep -v "^KNOWN" | cut -c1-220
